@@ -319,6 +319,7 @@ impl Table {
 
     /// Gets the given key's corresponding entry in the Table for in-place manipulation.
     pub fn entry<'a>(&'a mut self, key: &str) -> Entry<'a> {
+        remove_placeholder(&mut self.items, key);
         // Accept a `&str` rather than an owned type to keep `InternalString`, well, internal
         match self.items.entry(key.into()) {
             indexmap::map::Entry::Occupied(entry) => Entry::Occupied(OccupiedEntry { entry }),
@@ -328,6 +329,7 @@ impl Table {
 
     /// Gets the given key's corresponding entry in the Table for in-place manipulation.
     pub fn entry_format<'a>(&'a mut self, key: &Key) -> Entry<'a> {
+        remove_placeholder(&mut self.items, key.get());
         // Accept a `&Key` to be consistent with `entry`
         match self.items.entry(key.clone()) {
             indexmap::map::Entry::Occupied(entry) => Entry::Occupied(OccupiedEntry { entry }),
@@ -411,6 +413,7 @@ impl Table {
     /// Inserts a key-value pair into the map.
     pub fn insert(&mut self, key: &str, item: Item) -> Option<Item> {
         use indexmap::map::MutableEntryKey;
+        remove_placeholder(&mut self.items, key);
         let key = Key::new(key);
         match self.items.entry(key.clone()) {
             indexmap::map::Entry::Occupied(mut entry) => {
@@ -428,6 +431,7 @@ impl Table {
     /// Inserts a key-value pair into the map.
     pub fn insert_formatted(&mut self, key: &Key, item: Item) -> Option<Item> {
         use indexmap::map::MutableEntryKey;
+        remove_placeholder(&mut self.items, key.get());
         match self.items.entry(key.clone()) {
             indexmap::map::Entry::Occupied(mut entry) => {
                 *entry.key_mut() = key.clone();
@@ -443,11 +447,13 @@ impl Table {
 
     /// Removes an item given the key.
     pub fn remove(&mut self, key: &str) -> Option<Item> {
+        remove_placeholder(&mut self.items, key);
         self.items.shift_remove(key)
     }
 
     /// Removes a key from the map, returning the stored key and value if the key was previously in the map.
     pub fn remove_entry(&mut self, key: &str) -> Option<(Key, Item)> {
+        remove_placeholder(&mut self.items, key);
         self.items.shift_remove_entry(key)
     }
 
@@ -525,6 +531,14 @@ impl<'s> IntoIterator for &'s Table {
 }
 
 pub(crate) type KeyValuePairs = IndexMap<Key, Item>;
+
+/// Drops the placeholder that mutable indexing (`table["key"]`) leaves behind for a missing `key`,
+/// so that operations which add or take an entry see the `key` as vacant
+pub(crate) fn remove_placeholder(items: &mut KeyValuePairs, key: &str) {
+    if matches!(items.get(key), Some(Item::None)) {
+        items.shift_remove(key);
+    }
+}
 
 fn decorate_table(table: &mut Table) {
     use indexmap::map::MutableKeys;
